@@ -34,6 +34,9 @@ type Case struct {
 	Behav   map[string]Behav `json:"behav"`   // per physical command line
 	Special map[string][]string `json:"special,omitempty"` // raw replies overriding the standard ones (fault injection)
 	Slow    bool             `json:"slow,omitempty"`
+	// NoAsk: dialogue variant of the device: `reload in 2` is answered directly with
+	// `Proceed with reload? [confirm]` (no `Save? [yes/no]` question)
+	NoAsk bool `json:"noask,omitempty"`
 }
 
 func bannerText(msg string) string { return "\n\n\n" + bell + "***\n***" + msg + "\n***\n" }
@@ -62,6 +65,8 @@ func replyFor(cmd string, b Behav) string {
 	}
 	return cmd + "\n" + b.Out + prompt
 }
+
+const noAskReload = "reload in 2\nProceed with reload? [confirm]<!>" + prompt
 
 const stdReload = "reload in 2\n\nSystem configuration has been modified. Save? [yes/no]: <!>Reload reason: Reload Command\nProceed with reload? [confirm]<!>" + prompt
 
@@ -95,6 +100,10 @@ func runDialog(dir string, c *Case) Outcome {
 	})
 	replies := stdReplies()
 	replies["sh run"] = []string{"sh run\n" + strings.Join(c.Device, "\n") + "\n" + prompt}
+	if c.NoAsk {
+		replies["reload in 2"] = []string{noAskReload}
+		replies["do reload in 2"] = []string{"do " + noAskReload}
+	}
 	for l, b := range c.Behav {
 		replies[l] = []string{replyFor(l, b)}
 	}
